@@ -304,7 +304,7 @@ Lemma render_opts : forall k t v, render_type (opts k t) v false false =
 Proof. induction k as [|k IH]; intros t v.
   - cbn [opts Nat.iter nat_rect repeat flat_map]. rewrite app_nil_r. reflexivity.
   - change (opts (S k) t) with (TsOpt (opts k t)). cbn [render_type]. rewrite IH.
-    rewrite repeat_cons, flat_map_app, <- app_assoc. reflexivity. Qed.
+    cbn [repeat]. rewrite repeat_cons, flat_map_app, <- app_assoc. reflexivity. Qed.
 
 Lemma build_string : forall v k, build_schema (opts k (TsPrim (L "string"))) (Some v) =
   L "z.string()" ++ flat_map show_meth (string_meths v ++ repeat MOptional k).
